@@ -110,6 +110,10 @@ func obsEngine(e error) SX {
 // the after-hop streams when hopStreams is set.
 var engineStreams, hopStreams bool
 
+// hopStreamsOff is set while building an engine case over hostile strings: the message of a
+// Mark reference is then sent to the model as an input (see Recipe.lean, "mark")
+var hopStreamsOff bool
+
 func obsCase(e error, refs []error) SX {
 	if engineStreams {
 		return obsEngine(e)
